@@ -343,10 +343,18 @@ func (w *World) failStopHelper(fn *ssa.Function) (string, bool) {
 		if mi, isMI := v.(*ssa.MakeInterface); isMI {
 			v = stripConv(mi.X)
 		}
-		pr, isParam := v.(*ssa.Parameter)
-		if !isParam || !isErrorType(pr.Type()) {
-			return "", false
+		if pr, isParam := v.(*ssa.Parameter); isParam && isErrorType(pr.Type()) {
+			continue
 		}
+		// ... or the error a controller's block handler returned to this helper
+		if ex, isEx := v.(*ssa.Extract); isEx && isErrorType(ex.Type()) {
+			if call, isCall := ex.Tuple.(*ssa.Call); isCall {
+				if nm := callName(call.Common()); nm == "EndBlock" || nm == "BeginBlock" {
+					continue
+				}
+			}
+		}
+		return "", false
 	}
 	allowed := map[string]string{"node.(*RigoApp).BeginBlock": "", "node.(*RigoApp).EndBlock": ""}
 	via, ok := w.onlyReachedFrom(fn, allowed, 0, map[*ssa.Function]bool{})
@@ -624,6 +632,9 @@ func (w *World) payloadTableOf(fn *ssa.Function, re *regexp.Regexp, facts ...ato
 		e := &enumerator{w: w, eval: eval, event: event, max: 400, complete: true, evCache: map[ssa.Instruction]string{}, hasEv: map[*ssa.Function]int{}, pathSensitiveEvents: true}
 		got := map[string]bool{}
 		okPaths := 0
+		// only successful paths of fn are read: what a helper hands back with an error is not stored by them
+		w.successReturnsOnly = true
+		defer func() { w.successReturnsOnly = false }()
 		e.walkFn(fn, nil, 0, func(ev []string, ret *ssa.Return, term string) {
 			if ret == nil || w.errState(ret) == triNonNil {
 				return
@@ -1374,7 +1385,15 @@ func (w *World) valueMayBeNil(v ssa.Value, at *ssa.BasicBlock, seen map[*ssa.Fun
 		return x.IsNil()
 	case *ssa.Phi:
 		for i, e := range x.Edges {
-			if e != v && w.valueMayBeNil(e, x.Block().Preds[i], seen, d+1) {
+			if e == v {
+				continue
+			}
+			// the edge itself may be the non-nil outcome of a test of e at the end of the
+			// predecessor (`if x == nil { x = new }` merges x on the edge where x != nil)
+			if nonNilOnEdge(e, x.Block().Preds[i], x.Block()) {
+				continue
+			}
+			if w.valueMayBeNil(e, x.Block().Preds[i], seen, d+1) {
 				return true
 			}
 		}
@@ -2319,4 +2338,35 @@ func p7raw(w *World, r *Report) {
 		return
 	}
 	r.OK("P-7", "raw-json", fmt.Sprintf("none of the %d values handed to a JSON marshaller in the state packages carries a raw JSON message", n))
+}
+
+// nonNilOnEdge: pred ends in a test of v against nil and the edge pred→to is the one
+// on which v is not nil.
+func nonNilOnEdge(v ssa.Value, pred, to *ssa.BasicBlock) bool {
+	ifi, ok := lastInstr(pred).(*ssa.If)
+	if !ok || len(pred.Succs) != 2 || pred.Succs[0] == pred.Succs[1] {
+		return false
+	}
+	bo, ok := ifi.Cond.(*ssa.BinOp)
+	if !ok || (bo.Op != token.EQL && bo.Op != token.NEQ) {
+		return false
+	}
+	isNilC := func(x ssa.Value) bool { c, ok := x.(*ssa.Const); return ok && c.IsNil() }
+	var other ssa.Value
+	switch {
+	case isNilC(bo.Y):
+		other = bo.X
+	case isNilC(bo.X):
+		other = bo.Y
+	default:
+		return false
+	}
+	if stripConv(other) != stripConv(v) {
+		return false
+	}
+	nonNilSucc := 1 // for ==: the false edge
+	if bo.Op == token.NEQ {
+		nonNilSucc = 0
+	}
+	return pred.Succs[nonNilSucc] == to
 }
